@@ -718,6 +718,10 @@ func witnessEmbeddedNumber() Doc {
 	return d
 }
 
+// witnessCharLevel is the witness of the repaired finding F8 (C11/charlevel-position-only):
+// three glyph-by-glyph pages with "ACME Report" at y=760 and, on page 2 only, "Chapter Two"
+// at y=740 inside the same band. Before the repair the filter removed every glyph of the
+// band on page 2; now only the glyphs of "ACME Report" go.
 func witnessCharLevel() Doc {
 	var d Doc
 	for i := 0; i < 3; i++ {
